@@ -68,6 +68,8 @@ func exec(t []string) string {
 	case t[0] == "ntp.meta" && len(t) == 3:
 		p := ntp.Packet{LVM: uint8(i64(t[1])), Stratum: uint8(i64(t[2]))}
 		return "ok " + lib.Bool(ntp.ValidateResponseMetadata(&p) == nil)
+	case t[0] == "cli.hist":
+		return execHist(t) // hdrhistogram.RecordValue on the real library (gen_tail.go)
 	case len(t[0]) > 4 && t[0][:4] == "cli.":
 		return "live-only"
 	case t[0] == "cl.exch":
@@ -128,6 +130,19 @@ func gen(c *lib.Ctx) {
 		genNoStamp(c, "c03nostamp-scion", true)
 		genLatePort(c, "c03lateport-ip", false)
 		genLatePort(c, "c03lateport-scion", true)
+		genHistPure(c)
+		genHist(c, "c03hist-ip", false)
+		genHist(c, "c03hist-scion", true)
+		genHistWrap(c, "c03histwrap-ip", false)
+		genHistWrap(c, "c03histwrap-scion", true)
+		genHdr(c, "c03hdr")
+	case "tail": // development: the streams of gen_tail.go only
+		genHistPure(c)
+		genHist(c, "c03hist-ip", false)
+		genHist(c, "c03hist-scion", true)
+		genHistWrap(c, "c03histwrap-ip", false)
+		genHistWrap(c, "c03histwrap-scion", true)
+		genHdr(c, "c03hdr")
 	case "c05":
 		genC05IP(c)
 		genWrapIP(c)
@@ -148,6 +163,11 @@ func gen(c *lib.Ctx) {
 		genReframe(c, "c05reframe", false)
 		genNoStamp(c, "c05nostamp-ip", false)
 		genNoStamp(c, "c05nostamp-scion", true)
+		genHistPure(c)
+		genHist(c, "c05hist-ip", false)
+		genHist(c, "c05hist-scion", true)
+		genHistWrap(c, "c05histwrap-ip", false)
+		genHistWrap(c, "c05histwrap-scion", true)
 	case "port": // development
 		genLatePort(c, "c03lateport-ip", false)
 		genLatePort(c, "c03lateport-scion", true)
